@@ -60,6 +60,7 @@ EXACT_LAWS = [
 ]
 FLOAT_LAWS = [
     'quat_to_3x3_matches_rotate', 'quat_to_3x3_orthonormal',
+    'rotate_integer_dtype_vector',
     'kinetic_energy_invariant', 'inertia_do_symmetric',
     'euler_product_of_axis_rotations', 'euler_round_trip',
     'from_to_rotates', 'from_to_antiparallel', 'quat_rot_axis_rodrigues',
@@ -286,6 +287,13 @@ def run(job, mon):
       m = bm.quat_to_3x3(q)
       return (m @ m.T, jp.linalg.det(m)), (jp.eye(3), jp.ones(()))
     evaluate('quat_to_3x3_orthonormal', orth, [qs], False)
+    # vectors given with an integer dtype (e.g. jp.array([0, 0, 1])) and a
+    # float quaternion: the result is the float rotation, not a truncation
+    vi = rng.integers(-3, 4, size=(n, 3)).astype(np.int32)
+    evaluate('rotate_integer_dtype_vector',
+             lambda q, v: (bm.rotate(v, q) * 1.0,
+                           bm.quat_to_3x3(q) @ v.astype(q.dtype)),
+             [qa, vi], False)
 
   if group == 'energy':
     raw = rng.uniform(-1, 1, (n, 3, 3))
